@@ -47,3 +47,108 @@ check(
     "Exhaustive for the named-cell table and the stated product bounds. TensorProductCell entries refused with NotImplementedError are recorded as not provided (no verdict). Entity order inside a tuple is recorded, not required. Trusted: the combinatorial model in the driver (self-validated against closed simplex/hypercube formulas).",
     "DESIGN.md 3 C26",
 )
+check(
+    "C01",
+    "exhaustive product of integrand templates x element settings x meshes x measures x compute_form_data option sets, preprocessed vs original integrand values per (integral type, subdomain)",
+    "Every form of the product (about 45 integrand templates incl. index reuse, derivatives, conditionals, geometry, compound algebra, Gateaux derivatives) x 12 element settings (Lagrange, vector, tensor, RT, N1curl, L2-Piola, Regge, HHJ, covariant-contravariant, symmetric, two mixed) x 5 meshes (incl. immersed) x 6 measures (dx, dx(1), multi-subdomain sums, ds, dS) is run through the real compute_form_data under the option sets (quick: all 32 combinations of the five lowering flags with the other flags cycling; thorough: all 1024); for every (integral type, subdomain id) of the result the summed model value of the preprocessed integrands on reference-frame data equals the measure scaling factor times the summed value of the original integrands that apply there; dropped subdomains are detected. Exceptions are accepted outcomes.",
+    "Trusted: reference evaluator Sem (push-forwards, vertex geometry, jets), FEniCS reference-cell tables, model of the measure scaling (|det J| w, facet pseudo-determinant w). Affine simplex cells only; no MeshSequence / coefficients_to_split / quadrilaterals. H1 data continuous across facets, all else independent per side.",
+    "DESIGN.md 3 C01",
+)
+check(
+    "C02",
+    "explicit-state BFS over differentiable integrand recipes x 19 differentiation configurations; real derivative()+expand_derivatives vs tau-coefficient of the model value (jets)",
+    "Every integrand F of the grammar (all math functions incl. Bessel/erf/atan2, powers, abs/sign/conj/real/imag, min/max, conditionals, indexing, tensor algebra, spatial derivatives; depth 2, thorough 3 comb) x every configuration (whole coefficient, component, tuples with given/mixed argument, mixed coefficient and split parts, list tensor of components; Argument / Coefficient / expression directions; coefficient_derivatives; second derivatives) is differentiated by the real code and compared with d/dtau Sem(F)(w + tau v) at tau = 0 computed by power series on the undifferentiated F.",
+    "Trusted: jets (self-tested against closed forms / mpmath numerical derivatives) and Sem. Exceptions are accepted outcomes (the statement allows raising). Kinks within 1e-6 are skipped and counted.",
+    "DESIGN.md 3 C02",
+)
+check(
+    "C03",
+    "explicit-state BFS over expression recipes with every spatial derivative operator nested 2-3 times; real expand_derivatives vs jet derivative of the model value + structural check",
+    "Every expression f of the grammar (coefficients incl. Piola-mapped, constants, x, X, J, K, detJ, CellVolume; all math functions, powers, indexing, tensor algebra, conditionals; depth 2) with grad, nabla_grad, div, nabla_div, curl, .dx(k), .dx(i) applied and nested (2x quick, 3x thorough) on triangle and tetrahedron: the real expand_derivatives result contains derivatives of terminals only and its value equals K^T d/dX applied to the power series of Sem(f).",
+    "Trusted: jets and Sem. Immersed manifolds excluded (grad(x) = I convention is ambiguous there). Jet order 3/4 >= nesting depth.",
+    "DESIGN.md 3 C03",
+)
+check(
+    "C04",
+    "explicit-state BFS over recipes on variables x all diff configurations (8 variables, repeated and mixed second derivatives); real diff()+expand_derivatives vs label-perturbation semantics",
+    "Every expression of the grammar over scalar, vector and tensor variables, variables of sums/products, a nested variable and coefficients used as variables (depth 2) x diff with respect to each variable and 10 repeated/mixed second derivatives: shape f.shape + v.shape and value equal to the tau-coefficient of Sem(f) with the variable's label bound to value + tau E_alpha.",
+    "Trusted: jets and Sem (Variable nodes evaluate their expression unless the label is overridden). For a Coefficient as variable the value is shifted, its spatial derivatives are not.",
+    "DESIGN.md 3 C04",
+)
+check(
+    "C09",
+    "explicit-state BFS over low-level Jacobian product expressions (3 reused indices, nested constant powers); real cancel_jacobian_products pipelines vs reference value on det J > 0, < 0 and immersed cells",
+    "Every expression of the grammar (indexed J, K, Identity, coefficients with pool/fixed indices; powers with exponents 2,-1,0.5,-2,3,1.5,-0.5 incl. nested powers and reciprocals of detJ; pairwise and triple products with implicit index sums; sums; comb level with reciprocal powers and extra Jacobian factors) is passed through cancel_jacobian_products and through remove_component_tensors followed by it; shape, free indices and value must be unchanged on triangle 2D (det J of both signs) and triangle in 3D (3x2 Jacobian, both orientations) (thorough: also tetrahedron, interval in 2D).",
+    "Trusted: Sem; K computed from the vertices as (pseudo-)inverse.",
+    "DESIGN.md 3 C09",
+)
+check(
+    "C14",
+    "explicit-state BFS over integrand recipes with test/trial functions; every integrand accepted by the real compute_form_data (both modes) is checked for exact multilinearity of its model value",
+    "Every integrand of the grammar (depth 3 with comb; sums, products, division, index notation, list tensors mixing argument/non-argument/zero components, conditionals, conj/real/imag, abs, powers, math functions, derivatives, tensor algebra over a scalar and a vector test/trial pair) is submitted as e*dx to compute_form_data in real and complex mode; whenever accepted, the 50-digit model value of e is homogeneous (factors 2, -3, and i in complex mode: antilinear in the test function) and additive in each argument separately, and the form's arguments are those of the integrand. A call that does not return within 120 s is reported as a hang.",
+    "One direction only (accepted => multilinear); rejection of a multilinear integrand is never an alarm. Trusted: Sem, field data as linear combinations.",
+    "DESIGN.md 3 C14",
+)
+check(
+    "C16",
+    "exhaustive enumeration of forms = weighted sums of <= 3 terms from a term alphabet x measures x spaces; real lhs/rhs/system/functional/action/adjoint/energy_norm vs multi-affine decomposition of the model value",
+    "All single terms, all ordered pairs of terms (selected measure pairs and weights) and bilinear+linear+functional triples from an alphabet covering every PartExtracter handler (sums inside terms, list tensors, index sums, division, variables, conditionals, restricted terms, conj) on scalar and vector spaces over dx, dx(1), ds, dS, in real and complex data: lhs(F) == a, rhs(F) == -L, functional(F) == F(0,0) where a, L are obtained from the model value of F by multi-affine decomposition; action(a,f) == a(u:=f), adjoint(a) == conj(a) with swapped arguments, energy_norm(a,f) == a(f,f), per (integral type, subdomain id).",
+    "Trusted: Sem and the data-aliasing used to substitute arguments. Exceptions from the operators are accepted outcomes and counted.",
+    "DESIGN.md 3 C16",
+)
+check(
+    "C17",
+    "explicit-state BFS over interior-facet integrand recipes with restrictions at every position (incl. missing and doubled); real apply_restrictions (2 modes) vs two-cell model value + structural invariant + must-raise oracle",
+    "Every recipe of the grammar (H1, DG, vector and Piola coefficients, an argument, x, n, FacetArea, CellVolume, constants; arithmetic, math functions, indexing, tensor algebra, grad, conditionals; '+', '-', jump, avg applied to terminals and to sub-expressions at depth <= 3) is run through apply_restrictions with and without default restrictions: results must keep the value on two-cell environments (shared facet, several local numberings of the neighbour, continuous H1 data, n- = -n+), have every side-dependent terminal restricted exactly once directly above its terminal/derivative chain; doubly restricted inputs, and with defaults inputs leaving a discontinuous quantity unrestricted, must raise.",
+    "Trusted: Sem's two-sided semantics and the driver's table of which terminal kinds require / default / ignore restriction (from the statement and the module).",
+    "DESIGN.md 3 C17",
+)
+check(
+    "C18",
+    "explicit-state BFS over polynomial integrand recipes on an element catalogue with mixed/symmetric/Piola elements; real degree estimation vs exact polynomial degree of the model value (jets)",
+    "Every polynomial integrand of the grammar (every fixed component of every form argument, pool-index components, sums, products, powers, inner/dot/outer, grad/div/dx, x; depth 3 comb) over P1/P2/P3, vector, mixed [P2v,P1], [P1,P3], symmetric [P2,P2,P2], symmetric [P1,P3,P1], mixed [symmetric,P1], RT, mixed [RT,DG0], [DG0,N1curl] on triangle 2D and triangle in 3D (thorough: tetrahedron): estimate_total_polynomial_degree and the degree attached by compute_form_data are >= the exact total degree in the reference coordinates of the model value with generic full-degree data (jets truncated at estimate+3).",
+    "One direction only. Trusted: exact polynomial arithmetic on jets, generic data. Only polynomial operators are in the alphabet.",
+    "DESIGN.md 3 C18",
+)
+check(
+    "C21",
+    "explicit-state BFS over expression recipes x 18 mappings; real replace vs model value with mapped terminals bound to the (jet) value of their image",
+    "Every expression of the grammar (depth 2; algebra, math functions, indexing, tensor algebra, spatial derivatives, variables, conditionals) x mappings (coefficient -> coefficient / expression / expression with a gradient, simultaneous swap and chain, argument -> argument / expression, constant -> constant / number, vector -> coefficient / list tensor / gradient, identity, unused key, two shape-changing maps, an operator-valued key): replace() equals Sem(e) with each mapped terminal taking the jet value of its image (so derivatives of replaced terminals are covered), shape-changing maps raise, untouched expressions come back equal.",
+    "Trusted: Sem with value overrides. Operator-valued keys are exercised structurally only.",
+    "DESIGN.md 3 C21",
+)
+check(
+    "C22",
+    "exhaustive enumeration of linear/bilinear forms on 6 mixed spaces x 2 styles (mixed element, MixedFunctionSpace) x measures; real extract_blocks vs model values with component-offset data aliasing",
+    "All single couplings (a-th trial with b-th test sub-function, several scalarisations incl. derivatives), all pairs of couplings, full sums and linear forms on Stokes [P2v,P1], Darcy [RT,DG0], three-field [P1,P1,P2v], [symmetric,P1], [N1curl,P1], [tensor,RT] as mixed elements (both replace_argument settings) and as MixedFunctionSpace, over dx, ds, dS: the model values of the blocks sum to the value of the form, every block's arguments live in sub-spaces i and j only.",
+    "Trusted: Sem; a sub-space argument created by extract_blocks denotes the components of the mixed argument at the sub-element's reference offset.",
+    "DESIGN.md 3 C22",
+)
+check(
+    "C23",
+    "explicit-state BFS over integrand recipes with comparisons/min/max/sign/abs/powers over real and complex quantities; real do_comparison_check and remove_complex_nodes vs model values on real and complex environments",
+    "Every scalar recipe of the grammar (depth 3 comb) is submitted to do_comparison_check: if accepted, every comparison/min/max operand of the input is real in every environment including complex ones, and the rewritten expression keeps the value on real data; and to remove_complex_nodes: the value is kept on real data, no complex node is left, inputs containing Imag or complex literals raise. Calls that do not return within 120 s are reported.",
+    "One direction in complex mode (rejection is never an alarm). Arguments and geometry are real also in complex environments (UFL's documented convention). Principal branches.",
+    "DESIGN.md 3 C23",
+)
+check(
+    "C24",
+    "explicit-state BFS over public-language recipes; UFL's own evaluator e(x, mapping, component) vs reference value for every component",
+    "Every recipe of the grammar (depth 2 + conditionals with tensor-valued branches differentiated; algebra, index notation, tensor algebra, conditionals, math functions, spatial derivatives, variables) without free indices is evaluated by Expr.__call__ at a point with terminals mapped to numbers and to callables f(x) / f(x, derivatives) generated from the environment polynomials, for every component, and compared with Sem (relative 1e-8).",
+    "Trusted: Sem. Bessel functions are excluded (UFL evaluates them through scipy, which is not installed).",
+    "DESIGN.md 3 C24",
+)
+check(
+    "C15",
+    "exhaustive enumeration of forms with n<=2 (selected 3) integrals over a letter alphabet (domain, type, subdomain, 16 metadata values, coordinate-derivative wrapper) x sharing patterns; real group_form_integrals/build_integral_data vs decoded reference",
+    "All forms of n <= 2 integrals over 2 domains x {dx, ds} x {everywhere, 1, 2, (1,2)} x 16 metadata values (incl. arrays differing in the elided middle / 12th digit, list vs tuple, key order) x 3 coordinate-derivative wrappers x every sharing pattern of digit-coded integrand constants (plus selected triples; thorough: all triples over reduced alphabets), both append options: output integrands are decoded and the totals per (domain, type, region, exact metadata class, wrapper) equal an independent plain-Python reference; different metadata are never merged.",
+    "Metadata equality is the documented canonicalisation (key order irrelevant, list == tuple, None == {}) with exact leaves. The oracle is total preservation (insensitive to UFL merging less than it could).",
+    "DESIGN.md 3 C15",
+)
+check(
+    "C28",
+    "explicit-state BFS over base-form recipes (depth 2/3) on real constructors vs finite-dimensional numpy model (argument contraction), real and complex tables",
+    "Every type-correct recipe over 20 base-form atoms (Matrix, Cofunction, Form, ZeroBaseForm, Coargument on V, W and duals), 10 operand atoms and 7 scalar weights with {+, -, neg, scalar*, FormSum, Action/action, Adjoint/adjoint, derivative raw and expanded} is executed; arguments() (class, space, order, numbering), coefficients() and the structurally assembled tensor of the result equal the model's prediction from argument contraction.",
+    "Conventions: last-with-first contraction, Adjoint = conjugate transpose, canonical argument numbering. Six root-cause families remain as known findings (see known_findings.json / DESIGN.md): Action argument numbering, complex FormSum weights under Adjoint, non-BaseForms inside FormSum, empty Form in the Leibniz rule.",
+    "DESIGN.md 3 C28",
+)
